@@ -3,15 +3,17 @@
    outputs.  Definitions only; the theorems are in proofs/C12_grid_place.v and proofs/C12_grid_tracks.v.
 
    Scope of the model
-   * grid lines: 'auto' | integer n (GLine n, n <> 0, positive or negative) | 'span n' (GSpan n, n >= 1);
-     no identifiers, no template areas.  For such lines `_get_line` returns coord = n - 1 whatever the sign
-     of n: negative integers are NOT counted from the end edge of the explicit grid (css-grid 8.3).
+   * grid lines: 'auto' | integer n (GLine n, positive or negative) | 'span n' (GSpan n, n >= 1);
+     no identifiers, no template areas.  `_get_placement(..., from_end=True)` (every call made with the
+     grid-placement properties of an item) counts a negative integer from the end of the explicit grid:
+     coord = len(lines) + n; this is `resolve_item`, applied to the items before the phases run.  The lines
+     that grid_layout builds itself, (None, k + 1, None), are read with coord = k whatever the sign.
    * grid_layout step 1 (placement) with all its phases, both packing modes, both flow axes; the
      Python variables that survive from one child to the next (cursor_first, cursor_second,
-     implicit_first_2 and the *stale* first_i read by the sparse branch) are state of the model.
+     implicit_first_2) are state of the model.
    * what the rest of grid_layout does with the areas when every track is a px length: implicit tracks,
-     the index computations of _resolve_tracks_sizes 1.2.2/1.2.3 (IndexError), track positions (3.5), item
-     rectangles (4), including Python's negative indexing / slicing of the track lists.
+     the shift of children_positions to the first implicit track, the index computations (IndexError), track
+     positions (3.5), item rectangles (4), including Python's slicing of the track lists.
    * _resolve_tracks_sizes for px, percentage and fr tracks with a definite container size. *)
 From Coq Require Import ZArith QArith Qminmax Qabs List Bool Lia.
 Import ListNotations.
@@ -70,9 +72,15 @@ Definition place_at (s e : gline) (k : Z) : Z * Z :=
   | _ => pl_line_end s (k + 1 + get_span s)
   end.
 
-(* validated input (css/validation/properties.py grid_line): integers are non-zero, spans are >= 1 *)
+(* validated input (css/validation/properties.py grid_line): spans are >= 1.  (Integers are non-zero in a
+   style sheet; the model does not need it, and resolved negative integers may be 0: coord = -1.) *)
 Definition gline_valid (g : gline) : bool :=
-  match g with GAuto => true | GLine n => negb (n =? 0) | GSpan n => 1 <=? n end.
+  match g with GAuto => true | GLine n => true | GSpan n => 1 <=? n end.
+
+(* _get_line(..., from_end=True): a negative integer n is the line len(lines) + n, i.e. the integer
+   len(lines) + n + 1 in the positive numbering (coord = integer - 1) *)
+Definition resolve_line (nlines : Z) (g : gline) : gline :=
+  match g with GLine n => if n <? 0 then GLine (nlines + n + 1) else GLine n | x => x end.
 Definition item_valid (it : item) : bool :=
   gline_valid (col_s it) && gline_valid (col_e it) && gline_valid (row_s it) && gline_valid (row_e it).
 
@@ -98,12 +106,8 @@ Fixpoint lookup_area (i : nat) (l : plog) : option area :=
 
 Inductive outcome (A : Type) :=
 | Ok (a : A)
-| CrashUnbound          (* UnboundLocalError: first_i read before any assignment *)
-| Hang                  (* the `for cursor_first in count(cursor_first)` loop with a stale first_i never exits *)
 | OutOfFuel.            (* a fuelled loop of the model ran out of fuel (proved impossible) *)
 Arguments Ok {A} a.
-Arguments CrashUnbound {A}.
-Arguments Hang {A}.
 Arguments OutOfFuel {A}.
 
 (* occupied tracks are kept as intervals (start, length); an interval of length <= 0 is an empty range *)
@@ -231,14 +235,13 @@ Section Placement.
     st_log : plog;
     st_cf : Z;                 (* cursor_first *)
     st_cs : Z;                 (* cursor_second *)
-    st_if2 : Z;                (* implicit_first_2 *)
-    st_stale : option Z        (* the Python variable first_i: None = not yet bound *)
+    st_if2 : Z                 (* implicit_first_2 *)
   }.
 
   Variables is1 is2 if1 : Z.
 
-  (* `for first_i in count(cursor_first)` (dense) / `for cursor_first in count(cursor_first)` (sparse, first_start
-     auto): k is the loop variable; cmp is what `if first_i < cursor_first: continue` compares with *)
+  (* `for first_i in count(cursor_first)` (dense) / `for cursor_first in count(cursor_first)` (sparse):
+     k is the loop variable; cmp is what `if first_i < cursor_first: continue` compares with *)
   Fixpoint first_search (fuel : nat) (sparse_cmp : bool) (fs fe : gline) (cf0 si ssz : Z) (ps : list area) (k : Z)
     : option (Z * Z * Z) :=
     match fuel with
@@ -251,19 +254,6 @@ Section Placement.
              else Some (k, fi, fsz)
     end.
   Definition search_fuel (ps : list area) (cf : Z) : nat := S (Z.to_nat (max_end (map first_of ps) - cf)).
-
-  (* the same loop in the sparse branch when first_start is a span: the end line is computed from the STALE
-     first_i (`(None, first_i + 1 + span, None)`), which the loop then overwrites with the result *)
-  Fixpoint stale_search (fuel : nat) (fs : gline) (si ssz : Z) (ps : list area) (stale k : Z) : option (Z * Z * Z) :=
-    match fuel with
-    | O => None
-    | S f =>
-        let '(fi, fsz) := pl_line_end fs (stale + 1 + get_span fs) in
-        if fi <? k then stale_search f fs si ssz ps fi (k + 1)
-        else if intersect_with_children (mk_area fi fsz si ssz) ps
-             then stale_search f fs si ssz ps fi (k + 1)
-             else Some (k, fi, fsz)
-    end.
 
   (* `for second_i in range(cursor_second, implicit_second_2)`: n = length of the range *)
   Fixpoint scan_second (n : nat) (fs fe ss se : gline) (ps : list area) (k fi : Z) : option (area * Z * Z) :=
@@ -306,30 +296,14 @@ Section Placement.
           match first_search (search_fuel ps cf) false fs fe cf si ssz ps cf with
           | None => OutOfFuel
           | Some (_, fi, fsz) =>
-              Ok (mkState ((i, mk_area fi fsz si ssz) :: st_log st) cf si (bump (st_if2 st) (fi + fsz - st_if2 st))
-                          (st_stale st))
+              Ok (mkState ((i, mk_area fi fsz si ssz) :: st_log st) cf si (bump (st_if2 st) (fi + fsz - st_if2 st)))
           end
         else
           let cf := if si <? st_cs st then st_cf st + 1 else st_cf st in
-          match fs with
-          | GAuto =>
-              match first_search (search_fuel ps cf) true fs fe cf si ssz ps cf with
-              | None => OutOfFuel
-              | Some (k, fi, fsz) =>
-                  Ok (mkState ((i, mk_area fi fsz si ssz) :: st_log st) k si (bump (st_if2 st) (fi + fsz - st_if2 st))
-                              (Some fi))
-              end
-          | _ =>
-              match st_stale st with
-              | None => CrashUnbound
-              | Some stale =>
-                  match stale_search (search_fuel ps cf) fs si ssz ps stale cf with
-                  | None => Hang
-                  | Some (k, fi, fsz) =>
-                      Ok (mkState ((i, mk_area fi fsz si ssz) :: st_log st) k si
-                                  (bump (st_if2 st) (fi + fsz - st_if2 st)) (Some fi))
-                  end
-              end
+          match first_search (search_fuel ps cf) true fs fe cf si ssz ps cf with
+          | None => OutOfFuel
+          | Some (k, fi, fsz) =>
+              Ok (mkState ((i, mk_area fi fsz si ssz) :: st_log st) k si (bump (st_if2 st) (fi + fsz - st_if2 st)))
           end
     | None =>
         let cf := if dense then if1 else st_cf st in
@@ -339,8 +313,7 @@ Section Placement.
         | Some (a, fi, fsz, cf', if2') =>
             Ok (mkState ((i, a) :: st_log st) cf'
                         (if Z.eqb cf' cf then cs else is1)
-                        (if dense then bump if2' (cf' + fsz - 1 - if2') else if2')
-                        (Some fi))
+                        (if dense then bump if2' (cf' + fsz - 1 - if2') else if2'))
         end
     end.
 
@@ -349,8 +322,6 @@ Section Placement.
     | [] => Ok st
     | c :: r => match step14 st c with
                 | Ok st' => phase14 r st'
-                | CrashUnbound => CrashUnbound
-                | Hang => Hang
                 | OutOfFuel => OutOfFuel
                 end
     end.
@@ -371,11 +342,9 @@ Definition grid_place_log (tcols trows : Z) (colflow dense : bool) (items : list
       let '((is1, is2a), rem) := phase132 colflow children l2 (0, if colflow then er else ec) in
       let is2 := phase133 colflow rem is1 is2a in
       let '(if1, if2) := first_bounds colflow (areas l2) (0, if colflow then ec else er) in
-      match phase14 colflow dense is1 is2 if1 rem (mkState l2 if1 is1 if2 None) with
+      match phase14 colflow dense is1 is2 if1 rem (mkState l2 if1 is1 if2) with
       | Ok st =>
           Ok (st_log st, if colflow then (if1, st_if2 st, is1, is2) else (is1, is2, if1, st_if2 st))
-      | CrashUnbound => CrashUnbound
-      | Hang => Hang
       | OutOfFuel => OutOfFuel
       end
   end.
@@ -384,10 +353,19 @@ Definition grid_place (tcols trows : Z) (colflow dense : bool) (items : list ite
   : outcome (list (option area) * (Z * Z * Z * Z)) :=
   match grid_place_log tcols trows colflow dense items with
   | Ok (l, b) => Ok (map (fun i => lookup_area i l) (seq 0 (length items)), b)
-  | CrashUnbound => CrashUnbound
-  | Hang => Hang
   | OutOfFuel => OutOfFuel
   end.
+
+(* step 1 of grid_layout on the items as the style sheet gives them: the negative integers of their
+   grid-placement properties are counted from the end of the explicit grid (columns[::2] / rows[::2] hold one
+   list of names per line: explicit tracks + 1), then the phases above run *)
+Definition resolve_item (tcols trows : Z) (it : item) : item :=
+  let nc := Z.max 1 tcols + 1 in let nr := Z.max 1 trows + 1 in
+  mkItem (resolve_line nc (col_s it)) (resolve_line nc (col_e it))
+         (resolve_line nr (row_s it)) (resolve_line nr (row_e it)) (order it).
+Definition grid_layout_place (tcols trows : Z) (colflow dense : bool) (items : list item)
+  : outcome (list (option area) * (Z * Z * Z * Z)) :=
+  grid_place tcols trows colflow dense (map (resolve_item tcols trows) items).
 
 (* ------------------------------------------------------------- after placement, with px tracks only *)
 
@@ -412,29 +390,28 @@ Definition implicit_tracks (explicit : list Z) (auto : Z) (i1 i2 : Z) : list Z :
 Fixpoint track_positions (sizes : list Z) (gap pos : Z) : list Z :=
   match sizes with [] => [] | s :: r => pos :: track_positions r gap (pos + s + gap) end.
 
-(* _resolve_tracks_sizes(..., implicit_second_1, 'x', ...) 1.2.2 / 1.2.3: tracks_children[coord - implicit_start]
-   with implicit_start = implicit_second_1 even when the second axis is the row axis *)
-Definition x_index_error (colflow : bool) (b : Z * Z * Z * Z) (ps : list area) : bool :=
-  let '(x1, x2, y1, y2) := b in
-  let n := x2 - x1 in
-  let start := if colflow then y1 else x1 in
-  existsb (fun a => let '(x, _, _, _) := a in let idx := x - start in (idx <? - n) || (n <=? idx)) ps.
+(* "Count positions from the first implicit track": children_positions[child] = (x - implicit_x1, y - implicit_y1, w, h) *)
+Definition shift_area (x1 y1 : Z) (a : area) : area := let '(x, y, w, h) := a in (x - x1, y - y1, w, h).
 
-(* 4: children with y < skip_row (= 0) are not laid out at all; the others get the rectangle computed with
-   Python indexing on the lists of positions and sizes *)
+(* columns_positions[x] / rows_positions[y] (and tracks_children[coord] in _resolve_tracks_sizes) raise IndexError
+   when the shifted start of an area is not the index of a track *)
+Definition index_error (ncols nrows : Z) (ps : list area) : bool :=
+  existsb (fun a => let '(x, y, _, _) := a in negb ((0 <=? x) && (x <? ncols) && (0 <=? y) && (y <? nrows))) ps.
+
+(* 4: the rectangle of a (shifted) area, computed with Python indexing / slicing on the lists of positions and sizes *)
 Definition item_rect (cols rows : list Z) (gap_c gap_r : Z) (a : area) : option (Z * Z * Z * Z) :=
   let '(x, y, w, h) := a in
-  if y <? 0 then None
-  else match py_index (track_positions cols gap_c 0) x, py_index (track_positions rows gap_r 0) y with
-       | Some px, Some py =>
-           Some (px, py, zsum (py_slice cols x (x + w)) + (w - 1) * gap_c,
-                 zsum (py_slice rows y (y + h)) + (h - 1) * gap_r)
-       | _, _ => None
-       end.
+  match py_index (track_positions cols gap_c 0) x, py_index (track_positions rows gap_r 0) y with
+  | Some px, Some py =>
+      Some (px, py, zsum (py_slice cols x (x + w)) + (w - 1) * gap_c,
+            zsum (py_slice rows y (y + h)) + (h - 1) * gap_r)
+  | _, _ => None
+  end.
 
+(* placement = the areas as _resolve_tracks_sizes receives them (shifted) *)
 Inductive render_outcome :=
 | ROk (placement : list (option area)) (rects : list (option (Z * Z * Z * Z)))
-| RCrashUnbound | RCrashIndex | RHang | RFuel.
+| RCrashIndex | RFuel.
 
 Record pcase := mkPcase {
   pc_cols : list Z; pc_rows : list Z;            (* grid-template-columns / rows in px ([] = none) *)
@@ -445,21 +422,19 @@ Record pcase := mkPcase {
 }.
 
 Definition render_model (c : pcase) : render_outcome :=
-  match grid_place (Z.of_nat (length (pc_cols c))) (Z.of_nat (length (pc_rows c))) (pc_colflow c) (pc_dense c)
-                   (pc_items c) with
-  | CrashUnbound => RCrashUnbound
-  | Hang => RHang
+  match grid_layout_place (Z.of_nat (length (pc_cols c))) (Z.of_nat (length (pc_rows c))) (pc_colflow c) (pc_dense c)
+                          (pc_items c) with
   | OutOfFuel => RFuel
   | Ok (pl, b) =>
       let '(x1, x2, y1, y2) := b in
-      let ps := flat_map (fun o => match o with Some a => [a] | None => [] end) pl in
-      if x_index_error (pc_colflow c) b ps then RCrashIndex
-      else
-        let cols := implicit_tracks (pc_cols c) (pc_auto_col c) x1 x2 in
-        let rows := implicit_tracks (pc_rows c) (pc_auto_row c) y1 y2 in
-        ROk pl (map (fun o => match o with
-                               | Some a => item_rect cols rows (pc_gap_c c) (pc_gap_r c) a
-                               | None => None end) pl)
+      let cols := implicit_tracks (pc_cols c) (pc_auto_col c) x1 x2 in
+      let rows := implicit_tracks (pc_rows c) (pc_auto_row c) y1 y2 in
+      let spl := map (option_map (shift_area x1 y1)) pl in
+      let ps := flat_map (fun o => match o with Some a => [a] | None => [] end) spl in
+      if index_error (Z.of_nat (length cols)) (Z.of_nat (length rows)) ps then RCrashIndex
+      else ROk spl (map (fun o => match o with
+                                  | Some a => item_rect cols rows (pc_gap_c c) (pc_gap_r c) a
+                                  | None => None end) spl)
   end.
 
 (* ------------------------------------------------------------------ decidable specification (css-grid) *)
@@ -547,9 +522,9 @@ Fixpoint all2 {A B} (f : A -> B -> bool) (l : list A) (m : list B) : bool :=
 
 (* what the harness observed *)
 Inductive impl_outcome :=
-| IOk (placement : list (option area)) (rects : list (option (Q * Q * Q * Q)))
+| IOk (placement : list (option area)) (rects : list (option (Q * Q * Q * Q)))   (* placement: shifted areas *)
 | ICrashUnbound     (* UnboundLocalError in grid_layout *)
-| ICrashIndex       (* IndexError in _resolve_tracks_sizes *)
+| ICrashIndex       (* IndexError in grid_layout / _resolve_tracks_sizes *)
 | ICrashOther
 | ITimeout.
 
@@ -565,18 +540,29 @@ Definition place_judge (ci : pcase * impl_outcome) : nat :=
   let corr :=
     match m, o with
     | ROk mp mr, IOk ip ir => all2 oarea_eqb mp ip && all2 orect_close ir mr
-    | RCrashUnbound, ICrashUnbound => true
     | RCrashIndex, ICrashIndex => true
-    | RHang, ITimeout => true
     | _, _ => false
     end in
   let clauses :=
     match o with
     | IOk ip ir =>
-        let ias := flat_map (fun p => match snd p with Some a => [(fst p, a)] | None => [] end)
-                            (combine (pc_items c) ip) in
+        let sias := flat_map (fun p => match snd p with Some a => [(fst p, a)] | None => [] end)
+                             (combine (pc_items c) ip) in
+        (* the observed areas count from the first implicit track; css-grid coordinates count from the first
+           explicit line: the offset is given by any item placed by a line number (0 when there is none) *)
+        let lead := fun (horizontal : bool) =>
+          match flat_map (fun p => let '(x, y, _, _) := snd p in
+                                   match (if horizontal then css_range tcols (col_s (fst p)) (col_e (fst p))
+                                          else css_range trows (row_s (fst p)) (row_e (fst p))) with
+                                   | Some (k, _) => [k - (if horizontal then x else y)]
+                                   | None => [] end) sias with
+          | g :: _ => g | [] => 0 end in
+        let ias := map (fun p => (fst p, shift_area (- lead true) (- lead false) (snd p))) sias in
+        let ip := map (option_map (shift_area (- lead true) (- lead false))) ip in
         let complete := Nat.eqb (length ias) (length (pc_items c)) in
-        let a_ok := complete && forallb (fun p => spec_lines tcols trows (fst p) (snd p)) ias in
+        let a_ok := complete && forallb (fun p => spec_lines tcols trows (fst p) (snd p)) ias &&
+                    (lead true =? fold_left Z.min (map (fun p => let '(x, _, _, _) := snd p in x) ias) 0) &&
+                    (lead false =? fold_left Z.min (map (fun p => let '(_, y, _, _) := snd p in y) ias) 0) in
         let b_ok := spec_no_overlap ias in
         let gx1 := fold_left Z.min (map (fun p => let '(x, _, _, _) := snd p in x) ias) 0 in
         let gy1 := fold_left Z.min (map (fun p => let '(_, y, _, _) := snd p in y) ias) 0 in
